@@ -371,6 +371,30 @@ def search(run, n_random, directed=True, with_model=True):
             report(run, {'what': 'values-differ', 'msg': 'equivalent spellings evaluate differently', 'kind': cases[ci]['kind'],
                          'doc': xpgen.DOCS[cases[ci]['doc']], 'expr': s1['s'], 'value': v1, 'expr2': s2['s'], 'value2': v2,
                          'values': list(vals), 'trees': [read_tree(s1['A']), read_tree(s2['A'])]})
+    # the same spellings with a DEFAULT namespace bound in the caller's context (Context::add_ns(None, ..)): which
+    # spelling is used may still not matter (one shared evaluation context per case, as xq/xe use it)
+    from . import xpath_common as X
+    dcases, owners = [], []
+    for ci, sps in bycase.items():
+        good = [sp for sp in sps if sp['dump'] is not None and sp['rest'] == 0]
+        if len(good) >= 2:
+            dcases.append({'doc': xpgen.DOCS[cases[ci]['doc']], 'exprs': [sp['s'] for sp in good], 'merged': True, 'binds': [(None, 'urn:d')]})
+            owners.append((ci, good))
+    douts = X.run_impl(dcases) if dcases else []
+    for (ci, good), c, o in zip(owners, dcases, douts):
+        if o.get('hang') or len(o.get('R', [])) != len(good):
+            continue
+        vals = {}
+        for sp, r in zip(good, o['R']):
+            run.evaluations += 1
+            v = 'err' if r[0].startswith('err') else r[0]
+            vals.setdefault(v, sp)
+        run.count('values-default-binding:' + ('1' if len(vals) <= 1 else 'differ'))
+        if len(vals) > 1:
+            (v1, s1), (v2, s2) = list(vals.items())[:2]
+            report(run, {'what': 'values-differ', 'msg': 'equivalent spellings evaluate differently when the context binds a default namespace', 'kind': cases[ci]['kind'],
+                         'doc': c['doc'], 'expr': s1['s'], 'value': v1, 'expr2': s2['s'], 'value2': v2, 'binds': [['', 'urn:d']],
+                         'values': list(vals), 'trees': [read_tree(s1['A']), read_tree(s2['A'])]})
     for sp in spellings[:4] + spellings[len(spellings) // 2:len(spellings) // 2 + 4]:
         run.sample({'kind': cases[sp['case']]['kind'], 'spelling': sp['s'], 'value': sp['val'], 'via': sp['src']})
 
